@@ -19,7 +19,7 @@ import (
 type memFile struct {
 	Name    string `json:"name"`
 	Content string `json:"content"`
-	Dir     bool   `json:"dir,omitempty"` // a directory in the file's place (the "unreadable" fault)
+	Dir     bool   `json:"dir,omitempty"`  // a directory in the file's place (the "unreadable" fault)
 	Link    string `json:"link,omitempty"` // a symbolic link to this target in the file's place
 }
 
